@@ -3768,7 +3768,10 @@ fn parse_group<'a>(
     let mut errors = term.errors.clone();
 
     // Check if we found the right parenthesis.
-    if !found {
+    if found {
+        // We found it, but if we had to skip over some tokens to get there, report that.
+        errors.append(&mut phony_errors);
+    } else {
         // We didn't find it. Report an error.
         errors.push(Rc::new(move |source_path, source_contents| {
             // Compute the source range for the left parenthesis.
